@@ -1899,6 +1899,11 @@ func ccSpecs() []ccSpec {
 	}
 }
 
+func notTranslated(out *strings.Builder, sp *ccSpec, err error) {
+	msg := strings.ReplaceAll(err.Error(), "-/", "- /")
+	fmt.Fprintf(out, "/-- NOT TRANSLATED — %s -/\ndef %s.untranslated : Unit := ()\n\n", msg, sp.fn.lean)
+}
+
 func genClosCode(repo string) (string, error) {
 	fset, funcs, err := ccLoad(repo)
 	if err != nil {
@@ -1920,7 +1925,8 @@ func genClosCode(repo string) (string, error) {
 		sp := &specs[i]
 		fd := funcs[sp.fn.goName]
 		if fd == nil {
-			return "", fmt.Errorf("function %s not found in pkg/clos", sp.fn.goName)
+			notTranslated(&out, sp, fmt.Errorf("function %s not found in pkg/clos", sp.fn.goName))
+			continue
 		}
 		c := &ccCtx{fset: fset, funcs: funcs, fns: fns, fn: &sp.fn, vars: map[string]ccVar{}, writes: writes,
 			poison: map[string]string{}, idx: map[string][2]string{}}
@@ -1968,10 +1974,15 @@ func genClosCode(repo string) (string, error) {
 				call += " " + ln
 			}
 		}
+		var sigErr error
 		for _, p := range sp.fn.params {
 			if _, ok := c.vars[p.goName]; !ok && sp.fn.startAtRange == "" && sp.fn.startAt == "" {
-				return "", fmt.Errorf("%s: parameter %s not found (signature changed)", sp.fn.goName, p.goName)
+				sigErr = fmt.Errorf("%s: parameter %s not found (signature changed)", sp.fn.goName, p.goName)
 			}
+		}
+		if sigErr != nil {
+			notTranslated(&out, sp, sigErr)
+			continue
 		}
 		sigma := "GClass"
 		if sp.fn.recv == "object" {
@@ -2017,7 +2028,8 @@ func genClosCode(repo string) (string, error) {
 				}
 			}
 			if k < 0 {
-				return "", fmt.Errorf("%s: no statement calls %s", sp.fn.goName, sp.fn.startAt)
+				notTranslated(&out, sp, fmt.Errorf("%s: no statement calls %s", sp.fn.goName, sp.fn.startAt))
+				continue
 			}
 			stmts = stmts[k:]
 		}
@@ -2030,7 +2042,8 @@ func genClosCode(repo string) (string, error) {
 				}
 			}
 			if k < 0 {
-				return "", fmt.Errorf("%s: no `for … range %s`", sp.fn.goName, sp.fn.startAtRange)
+				notTranslated(&out, sp, fmt.Errorf("%s: no `for … range %s`", sp.fn.goName, sp.fn.startAtRange))
+				continue
 			}
 			stmts = stmts[k:]
 		}
@@ -2043,7 +2056,12 @@ func genClosCode(repo string) (string, error) {
 			}
 		}
 		if err := c.block(stmts, 1); err != nil {
-			return "", err
+			// the function no longer has a shape the translator understands: leave a marker instead of
+			// its definition — Theorems/GenC12.lean (and every translated function that calls it) then
+			// fails to build, which tools/check.py reports as a broken proof obligation (K-gen); the
+			// model driver does not depend on this module, so the harness still searches a failing input
+			notTranslated(&out, sp, err)
+			continue
 		}
 		fmt.Fprintf(&out, "/-- %s -/\n", sp.fn.doc)
 		fmt.Fprintf(&out, "def %s.body%s (s : %s) : Ctl %s (%s) :=\n", sp.fn.lean, sig, sigma, sigma, sp.fn.ret.lean())
